@@ -28,12 +28,15 @@ NATIVE_COVERS = {q: ["get_async"] for q in ("release_data", "finish_task", "get_
 
 
 def native(tier, seed):
-    from vf import sched_native
-    return [sched_native.sweep(tier, seed), sched_native.remote_exception_sweep(tier, seed)]
+    from vf import cb_native, sched_native
+    # callback histories (length 3; longer ones are C05's) include a failing scheduler call: its finish callbacks and the active set afterwards
+    return [sched_native.sweep(tier, seed), sched_native.remote_exception_sweep(tier, seed), cb_native.sweep(tier, seed, length=3)]
 
 
 def replay_native(native):
-    from vf import sched_native
+    from vf import cb_native, sched_native
+    if "history" in native.get("args", {}):
+        return cb_native.replay(native)
     return sched_native.replay(native)
 
 
